@@ -268,6 +268,17 @@ def builtin(it, name):
     return table.get(name, NotImplemented)
 
 
+class Matrix:
+    """DataFrame.values: the table's cells, column by column"""
+
+    def __init__(self, names, cols):
+        self.names, self.cols = list(names), [list(c) for c in cols]
+
+    def equal(self, other):
+        return (isinstance(other, Matrix) and len(self.cols) == len(other.cols) and all(len(a) == len(b) for a, b in zip(self.cols, other.cols))
+                and all(same(x, y) for a, b in zip(self.cols, other.cols) for x, y in zip(a, b)))
+
+
 class MaskIdx:
     """np.nonzero(mask)[0]: the positions where a boolean vector is True (kept as the mask itself)"""
 
@@ -637,6 +648,9 @@ def value_attr(it, obj, attr):
             return IndexVals(obj.n)
         if attr == "empty":
             return obj.n == 0
+        if attr == "values":
+            names = [c for c in obj.cols if not c.startswith("__")]
+            return Matrix(names, [obj.cols[c].v for c in names])
         if attr in obj.cols:
             return obj.cols[attr]
         return BoundMethod(obj, attr)
@@ -1180,6 +1194,8 @@ def ext_call(it, dotted, args, kw):
         return Vec(out)
     if name in ("np.array_equal",):
         a, b = args
+        if isinstance(a, Matrix) or isinstance(b, Matrix):
+            return isinstance(a, Matrix) and a.equal(b)
         if isinstance(a, Vec) and isinstance(b, Vec):
             return len(a.v) == len(b.v) and all(same(x, y) for x, y in zip(a.v, b.v))
         return Opaque(name)
